@@ -12,6 +12,7 @@ import (
 	"reflect"
 	"sort"
 	"strings"
+	"syscall"
 	"time"
 
 	"github.com/taurusgroup/multi-party-sig/internal/zzverif/drv"
@@ -172,6 +173,16 @@ func completenessPoints(s *system) []point {
 		for _, c := range confStar(s)[1:] {
 			out = append(out, merge(witDiag(s, "rand"), c))
 		}
+		// witnesses without a documented range: the extreme plaintexts too
+		for _, c := range s.coords {
+			if c.kind == cPlain {
+				for _, l := range []string{"(N-1)/2", "-(N-1)/2"} {
+					p := merge(witDiag(s, "rand"), confDefault(s))
+					p[c.name] = l
+					out = append(out, p)
+				}
+			}
+		}
 	}
 	return dedup(out)
 }
@@ -183,9 +194,6 @@ func bindingPoints(s *system) []point {
 		out = confStar(s)
 		if !vkit.Thorough() && len(out) > 3 {
 			out = out[:3]
-		}
-		if vkit.Thorough() {
-			out = confCross(s)
 		}
 	case s.cheap:
 		for _, w := range witCross(s) {
@@ -380,6 +388,9 @@ func runCompleteness(s *system, pt point, seedIdx int) bool {
 	class, detail := completeOnce(s, pt, seedIdx)
 	logf("completeness %s %s seed#%d: %q %s", s.name, pt, seedIdx, class, detail)
 	if class == "" {
+		if seedIdx == 0 && strings.Contains(pt.String(), "2^") && len(res.Samples) < 5 {
+			res.Sample(map[string]interface{}{"case": id, "verify": true})
+		}
 		return true
 	}
 	if class == "harness" {
@@ -390,6 +401,23 @@ func runCompleteness(s *system, pt point, seedIdx int) bool {
 	res.Violate(fmt.Sprintf("zk|%s|completeness|%s|%s", s.name, min, class),
 		fmt.Sprintf("system %s, witness/configuration %s (minimal failing coordinates: %s), context %s, seed index %d\n%s", s.name, pt, min, baseCtx, seedIdx, detail), id)
 	return false
+}
+
+// degenerate names the coordinates of a point whose witness is the neutral element (zero
+// scalar / integer, nonce 1): there e·w vanishes, so such points get their own signatures and
+// cannot mask a defect that shows at regular points.
+func degenerate(pt point) string {
+	var d []string
+	for k, v := range pt {
+		if v == "0" || (k == "nonce" && v == "1") {
+			d = append(d, k+"="+v)
+		}
+	}
+	if len(d) == 0 {
+		return ""
+	}
+	sort.Strings(d)
+	return "@" + strings.Join(d, ",")
 }
 
 type evalOut struct {
@@ -468,7 +496,7 @@ func runBinding(s *system, pt point, chunk int, only string) (violated bool) {
 			if c.name != only {
 				continue
 			}
-		} else if i%s.chunks != chunk {
+		} else if i%nChunks(s) != chunk {
 			continue
 		}
 		id := caseID{Sys: s.name, Kind: "binding", Point: pt, Mut: c.name, Chunk: chunk}
@@ -491,7 +519,7 @@ func runBinding(s *system, pt point, chunk int, only string) (violated bool) {
 			res.Violate(fmt.Sprintf("panic|%s|%s", s.name, o.v.fr), fmt.Sprintf("Verify panicked: %s\nsystem %s, point %s, mutator %s\n%s", o.v.msg, s.name, pt, c.name, o.desc), id)
 		case o.v.ok:
 			violated = true
-			res.Violate(fmt.Sprintf("zk|%s|binding|%s|verifies", s.name, c.gname),
+			res.Violate(fmt.Sprintf("zk|%s|binding|%s|verifies%s", s.name, c.gname, degenerate(pt)),
 				fmt.Sprintf("Verify returned true although the triple was changed\nsystem %s, point %s, mutator %s\noriginal statement: %s\n%s", s.name, pt, c.name, describe(b.pubPlain), o.desc), id)
 		}
 	}
@@ -516,6 +544,9 @@ func runRange(s *system, pt point) bool {
 	count(s.name, "range")
 	v := verifySt(s, baseCtx, b.pubPlain, po.proof)
 	logf("range %s %s: verify=%v panic=%v %s", s.name, pt, v.ok, v.panicked, v.msg)
+	if len(res.Samples) < 7 {
+		res.Sample(map[string]interface{}{"case": id, "verify": v.ok})
+	}
 	min := point{}
 	base := neutral(s, pt)
 	for k, val := range pt {
@@ -537,6 +568,22 @@ func runRange(s *system, pt point) bool {
 
 // ---- main -----------------------------------------------------------------------------------------
 
+// cpuNow: user+system CPU seconds consumed by this process (wall time is useless on a loaded machine)
+func cpuNow() float64 {
+	var ru syscall.Rusage
+	if syscall.Getrusage(syscall.RUSAGE_SELF, &ru) != nil {
+		return 0
+	}
+	return float64(ru.Utime.Sec+ru.Stime.Sec) + float64(ru.Utime.Usec+ru.Stime.Usec)/1e6
+}
+
+func nChunks(s *system) int {
+	if vkit.Thorough() && s.chunkT > 0 {
+		return s.chunkT
+	}
+	return s.chunks
+}
+
 type unit struct {
 	s     *system
 	kind  string
@@ -555,7 +602,7 @@ func units(sys []*system) []unit {
 	for _, s := range sys {
 		if vkit.Want(s.name + "|binding") {
 			for _, pt := range bindingPoints(s) {
-				for c := 0; c < s.chunks; c++ {
+				for c := 0; c < nChunks(s); c++ {
 					us = append(us, unit{s: s, kind: "binding", pt: pt, chunk: c})
 				}
 			}
@@ -645,7 +692,7 @@ func main() {
 			skipped++
 			continue
 		}
-		t0 := time.Now()
+		t0 := cpuNow()
 		switch u.kind {
 		case "completeness":
 			runCompleteness(u.s, u.pt, u.seed)
@@ -662,7 +709,7 @@ func main() {
 		} else if u.forge != nil {
 			nm = u.forge.sys
 		}
-		cpu[nm] += time.Since(t0).Seconds()
+		cpu[nm] += cpuNow() - t0
 	}
 	for k, v := range cpu {
 		res.Extra["cpu_s."+k] = float64(int(v*10)) / 10
